@@ -639,8 +639,10 @@ func classify(c Case) core.Class {
 		dl = "0"
 	case s.deathLinks == 1:
 		dl = "1"
-	case s.deathLinks >= 2:
-		dl = "2+"
+	case s.deathLinks == 2:
+		dl = "2"
+	case s.deathLinks >= 3:
+		dl = "3+"
 	}
 	cl.Labels = append(cl.Labels, "death-links:"+dl, fmt.Sprintf("agents:%d", len(c.IDs)))
 	if s.deathWithParent {
